@@ -308,7 +308,9 @@ func onlyBuiltinLinesDiffer(a, b string) bool {
 
 // description values placed on every describable element
 var c13Descs = []string{"plain", "multi\nline", `say "hi"`, `ends with quote"`, `back\slash`, `has """ triple`, "  leading", "trailing  ", "\nleading newline", "trailing newline\n",
-	"tab\there", "é😀", `\"""`, "a\n  indented\n    more", `""`, "#not a comment", "a\n  \nb", "a\n\t\nb", "code:\n    x\n    \n    y", "a\n\nb", "x\\", "np\U000e0001\u00ad\u2028", "\U0010fffd\"", "\u3000Overview", "\u00a0a\n\u00a0b", "\u2003x\n\u2003\u2003y", " a\n\n b", "\ta\n\n\tb\n\n\tc", "  code\n\n  more"}
+	"tab\there", "é😀", `\"""`, "a\n  indented\n    more", `""`, "#not a comment", "a\n  \nb", "a\n\t\nb", "code:\n    x\n    \n    y", "a\n\nb", "x\\", "np\U000e0001\u00ad\u2028", "\U0010fffd\"", "\u3000Overview", "\u00a0a\n\u00a0b", "\u2003x\n\u2003\u2003y", " a\n\n b", "\ta\n\n\tb\n\n\tc", "  code\n\n  more",
+	// carriage returns (written as \r escapes): a block string would turn them into line feeds
+	"a\rb", "a\r\nb", "a\r", "\ra\n b"}
 
 // c13Described: a valid type system in which slot k carries the description; %d slots.
 var c13DescTemplate = []string{
